@@ -104,6 +104,7 @@ func RunCheck(id string, opts *Options) (*Report, int) {
 		}
 		e.Prog = ld.Prog
 		e.Ld = ld
+		ContractOverlay = opts.Overlay
 		targets, lemmas, err := LoadContracts(e, ld, filepath.Join(opts.VerifDir, "trusted"))
 		if err != nil {
 			rep.Broken = append(rep.Broken, "contracts: "+err.Error())
